@@ -224,22 +224,1290 @@ def isRaw : State → Bool
   | .cdataSection | .cdataSectionBracket | .cdataSectionEnd => true
   | _ => false
 
-theorem sinkState_raw {s0 s : State} (h : sinkState s0 s) (h0 : isRaw s = false) : s = s0 := by
-  unfold sinkState at h
-  rcases h with h | h | ⟨k, h⟩
-  · exact h
-  · subst h; simp [isRaw] at h0
-  · subst h; simp [isRaw] at h0
-
 /-- outside the raw-text states a transition leaves `temp_buf` empty if it found it empty -/
 theorem transChar_nr (o : Opts) (pol : Pol) (m : Mach) (c : Char)
     (h : isRaw m.state = false → m.tempBuf = []) :
-    isRaw (transChar o pol m c).1.state = false → (transChar o pol m c).1.tempBuf = [] := by
+    (transChar o pol m c).1.tempBuf ≠ [] → isRaw (transChar o pol m c).1.state = true := by
   unfold transChar
-  split <;> (repeat' split) <;>
-    (have h1 := fun h0 => sinkState_raw (emitTag_state pol .data m) h0
-     have h2 := fun h0 => sinkState_raw (emitTag_state pol .data (clearTemp m)) h0
-     have h3 := fun h0 => sinkState_raw (emitTag_state pol .data { m with tagSelfClosing := true }) h0
-     simp_all [isRaw, clearTemp, emitTempBuf])
+  split <;> (repeat' split) <;> simp_all [isRaw, clearTemp, emitTempBuf]
+
+
+theorem transSet_raw (o : Opts) (pol : Pol) (m : Mach) (r : SetRes) (h : isRaw m.state = true) :
+    isRaw (transSet o pol m r).1.state = true := by
+  unfold transSet
+  split <;> (repeat' split) <;> simp_all [isRaw]
+
+/-- a transition never asks to reconsume in a state that reads with `peek`/`eat` -/
+theorem transChar_recon (o : Opts) (pol : Pol) (m : Mach) (c : Char) (h : m.reconsume = false) :
+    (transChar o pol m c).1.reconsume = true →
+    (transChar o pol m c).1.state ≠ .beforeAttributeValue ∧
+    (transChar o pol m c).1.state ≠ .markupDeclarationOpen ∧
+    (transChar o pol m c).1.state ≠ .afterDoctypeName := by
+  unfold transChar
+  split <;> (repeat' split) <;> simp_all
+
+
+/-! ### `eat` (look-ahead) -/
+
+/-- the prologue of `eat` on a machine that is not reconsuming and whose stash is empty whenever a
+LF is pending: the flag and the input change together -/
+theorem eatSkipLf_phi (m : Mach) (inp : Str) (hr : m.reconsume = false) (hok : EatOk m) :
+    (eatSkipLf m inp).1.tempBuf = m.tempBuf ∧ (eatSkipLf m inp).1.line = m.line ∧
+    (eatSkipLf m inp).1.reconsume = false ∧
+    brk (eatSkipLf m inp).1.ignoreLf ((eatSkipLf m inp).1.tempBuf ++ (eatSkipLf m inp).2)
+      = brk m.ignoreLf (m.tempBuf ++ inp) ∧
+    ((eatSkipLf m inp).1.ignoreLf = true → m.tempBuf = [] ∧ inp = [] ∧ (eatSkipLf m inp).2 = []) := by
+  unfold eatSkipLf
+  cases hil : m.ignoreLf with
+  | false => simp [hr, hil]
+  | true =>
+    have ht := hok hil
+    cases inp with
+    | nil => simp [peek, hr, hil, ht]
+    | cons c rest =>
+      simp only [peek, hr, Bool.false_eq_true, ↓reduceIte, List.head?_cons]
+      by_cases hc : c = '\n'
+      · subst hc
+        simp [discardChar, hr, ht, brk_cons_lf]
+      · simp [hc, hr, ht, brk_flag c rest hc]
+
+/-- the characters a keyword can match are never line breaks -/
+def PatOk (eq : Char → Char → Bool) (pat : Str) : Prop :=
+  ∀ p ∈ pat, eq '\n' p = false ∧ eq '\r' p = false
+
+theorem patOk_kw : PatOk eqExact kwDashDash ∧ PatOk eqCi kwDoctype ∧ PatOk eqExact kwCdata ∧
+    PatOk eqCi kwPublic ∧ PatOk eqCi kwSystem := by
+  refine ⟨?_, ?_, ?_, ?_, ?_⟩ <;> (intro p hp; revert p; decide)
+
+theorem patOk_not_brk {eq : Char → Char → Bool} {pat : Str} (h : PatOk eq pat) (a p : Char) (hp : p ∈ pat)
+    (he : eq a p = true) : isBrk a = false := by
+  simp only [isBrk, Bool.or_eq_false_iff, decide_eq_false_iff_not]
+  constructor
+  · intro ha; subst ha; rw [(h p hp).1] at he; simp at he
+  · intro ha; subst ha; rw [(h p hp).2] at he; simp at he
+
+/-- whatever `eatCmp` accepted as (a prefix of) the keyword contains no line break -/
+theorem eatCmp_none_plain (eq : Char → Char → Bool) (all pat : Str) (hp : PatOk eq pat)
+    (h : eatCmp eq all pat = none) : ∀ c ∈ all, isBrk c = false := by
+  induction all generalizing pat with
+  | nil => intro c hc; exact absurd hc List.not_mem_nil
+  | cons a t ih =>
+    cases pat with
+    | nil => simp [eatCmp] at h
+    | cons p ps =>
+      simp only [eatCmp] at h
+      split at h
+      · rename_i he
+        intro c hc
+        rcases List.mem_cons.mp hc with hc | hc
+        · subst hc; exact patOk_not_brk hp _ p (List.mem_cons_self ..) he
+        · exact ih ps (fun q hq => hp q (List.mem_cons_of_mem _ hq)) h c hc
+      · simp at h
+
+theorem eatCmp_true_plain (eq : Char → Char → Bool) (all pat : Str) (hp : PatOk eq pat)
+    (h : eatCmp eq all pat = some true) :
+    (∀ c ∈ all.take pat.length, isBrk c = false) ∧ pat.length ≤ all.length := by
+  induction all generalizing pat with
+  | nil =>
+    cases pat with
+    | nil => simp
+    | cons p ps => simp [eatCmp] at h
+  | cons a t ih =>
+    cases pat with
+    | nil => simp
+    | cons p ps =>
+      simp only [eatCmp] at h
+      split at h
+      · rename_i he
+        obtain ⟨h1, h2⟩ := ih ps (fun q hq => hp q (List.mem_cons_of_mem _ hq)) h
+        refine ⟨?_, by simp; omega⟩
+        intro c hc
+        simp only [List.length_cons, List.take_succ_cons, List.mem_cons] at hc
+        rcases hc with hc | hc
+        · subst hc; exact patOk_not_brk hp _ p (List.mem_cons_self ..) he
+        · exact h1 c hc
+      · simp at h
+
+
+/-- `eat` moves text between the queue and the stash, or consumes a matched keyword (which holds no
+line break): the breaks ahead in stash ++ queue do not change -/
+theorem eat_phi (m : Mach) (inp pat : Str) (eq : Char → Char → Bool)
+    (hr : m.reconsume = false) (hok : EatOk m) (hat : m.atEof = false)
+    (hp : PatOk eq pat) (hne : pat ≠ [])
+    (b : Option Bool) (m1 : Mach) (i1 : Str) (h : eat m inp pat eq = (b, m1, i1)) :
+    m1.line = m.line ∧ m1.reconsume = false ∧ EatOk m1 ∧
+    brk m1.ignoreLf (m1.tempBuf ++ i1) = brk m.ignoreLf (m.tempBuf ++ inp) ∧
+    (b ≠ none → m1.tempBuf = []) ∧ (b = none → ∀ c ∈ m1.tempBuf, isBrk c = false) := by
+  rw [eat_eq_core] at h
+  obtain ⟨f1, f2, f3, f4, f5⟩ := eatSkipLf_phi m inp hr hok
+  have hat' : (eatSkipLf m inp).1.atEof = false := by simp [hat]
+  generalize hmi : (eatSkipLf m inp).1 = mi at *
+  generalize hii : (eatSkipLf m inp).2 = ii at *
+  unfold eatCore at h
+  cases hc : eatCmp eq (mi.tempBuf ++ ii) pat with
+  | none =>
+    simp only [hc, hat', Bool.false_eq_true, ↓reduceIte, Prod.mk.injEq] at h
+    obtain ⟨hb, hm1, hi1⟩ := h
+    subst hb hm1 hi1
+    refine ⟨by simpa using f2, by simpa using f3, ?_, by simpa using f4, by simp, fun _ => ?_⟩
+    · intro hil
+      have := f5 (by simpa using hil)
+      simp [f1, this.1, this.2.2]
+    · simpa using eatCmp_none_plain eq _ pat hp hc
+  | some bb =>
+    have hall : mi.tempBuf ++ ii ≠ [] := by
+      intro hnil
+      rw [hnil] at hc
+      cases pat with
+      | nil => exact hne rfl
+      | cons p ps => simp [eatCmp] at hc
+    have hig : mi.ignoreLf = false := by
+      cases hx : mi.ignoreLf with
+      | false => rfl
+      | true =>
+        have := f5 hx
+        exact absurd (by simp [f1, this.1, this.2.2]) hall
+    cases bb with
+    | false =>
+      simp only [hc, Prod.mk.injEq] at h
+      obtain ⟨hb, hm1, hi1⟩ := h
+      subst hb hm1 hi1
+      refine ⟨by simpa using f2, by simpa using f3, fun _ => by simp, ?_, fun _ => by simp, fun hx => by simp at hx⟩
+      simpa using f4
+    | true =>
+      simp only [hc, Prod.mk.injEq] at h
+      obtain ⟨hb, hm1, hi1⟩ := h
+      subst hb hm1 hi1
+      refine ⟨by simpa using f2, by simpa using f3, fun _ => by simp, ?_, fun _ => by simp, fun hx => by simp at hx⟩
+      obtain ⟨hpl, hlen⟩ := eatCmp_true_plain eq _ pat hp hc
+      have hk : (mi.tempBuf ++ ii).take pat.length ≠ [] := by
+        intro hnil
+        have : pat.length = 0 ∨ (mi.tempBuf ++ ii) = [] := by
+          rcases List.take_eq_nil_iff.mp hnil with h0 | h0
+          · exact Or.inl h0
+          · exact Or.inr h0
+        rcases this with h0 | h0
+        · exact hne (List.length_eq_zero_iff.mp h0)
+        · exact hall h0
+      have hsplit := brk_plain_append mi.ignoreLf _ ((mi.tempBuf ++ ii).drop pat.length) hpl hk
+      rw [List.take_append_drop] at hsplit
+      simp only [Mach.setTempBuf, List.nil_append]
+      rw [← f4, hsplit, hig]
+
+
+/-! ### the character-reference sub-tokenizer -/
+
+theorem toDigit_not_brk (c : Char) (base n : Nat) (h : toDigit c base = some n) : isBrk c = false := by
+  simp only [isBrk, Bool.or_eq_false_iff, decide_eq_false_iff_not]
+  constructor
+  · intro hc; subst hc; simp [toDigit] at h
+  · intro hc; subst hc; simp [toDigit] at h
+
+theorem alnum_not_brk (c : Char) (h : isAsciiAlnum c = true) : isBrk c = false := by
+  simp only [isBrk, Bool.or_eq_false_iff, decide_eq_false_iff_not]
+  constructor
+  · intro hc; subst hc; simp [isAsciiAlnum] at h
+  · intro hc; subst hc; simp [isAsciiAlnum] at h
+
+/-- the registers of the sub-tokenizer as far as line accounting cares -/
+structure CRLines (cr : CharRefSt) : Prop where
+  plain : ∀ c ∈ cr.nameBuf.getD [], isBrk c = false
+  noBuf : cr.state ≠ .named → cr.state ≠ .bogusName → cr.nameBuf = none
+  hex : ∀ c, cr.hexMarker = some c → isBrk c = false
+
+/-- `m1` differs from `m` at most in what was emitted -/
+def SameLines (m1 m : Mach) : Prop :=
+  m1.line = m.line ∧ m1.ignoreLf = m.ignoreLf ∧ m1.reconsume = m.reconsume
+
+theorem SameLines.refl (m : Mach) : SameLines m m := ⟨rfl, rfl, rfl⟩
+theorem sameLines_emitErr (m : Mach) (s : String) : SameLines (emitErr m s) m := by simp [SameLines]
+theorem sameLines_emit (m : Mach) (t : Token) : SameLines (emit m t) m := by simp [SameLines]
+theorem sameLines_nameErr (o : Opts) (m : Mach) (nb : Str) : SameLines (nameErr o m nb) m := by
+  unfold nameErr; split <;> simp [SameLines]
+theorem sameLines_finishNumeric (o : Opts) (m : Mach) (cr : CharRefSt) : SameLines (finishNumeric o m cr).1 m := by
+  unfold finishNumeric numericErr
+  dsimp only
+  split
+  · split <;> simp [SameLines]
+  · exact SameLines.refl m
+
+
+/-- what one step of the sub-tokenizer must satisfy: same line, no pending LF, and the breaks ahead
+in `name_buf ++ queue` unchanged (on `Done` the buffer has been given back or consumed) -/
+def CROk (m : Mach) (nb : Str) (inp : Str) : CRRes → Prop
+  | .error _ => True
+  | .ok (m1, i1, cr1, st) =>
+    m1.line = m.line ∧ m1.ignoreLf = false ∧ m1.reconsume = false ∧
+    (match st with
+     | .done _ => brk false i1 = brk false (nb ++ inp)
+     | _ => CRLines cr1 ∧ brk false (cr1.nameBuf.getD [] ++ i1) = brk false (nb ++ inp))
+
+theorem namedDecision_lines (m : Mach) (cr : CharRefSt) (nb : Str) (c1 c2 : Nat) (m1 : Mach) (chars : Str)
+    (h : namedDecision m cr nb c1 c2 = .ok (some (m1, chars))) :
+    m1.line = m.line ∧ m1.ignoreLf = false ∧ m1.reconsume = m.reconsume := by
+  unfold namedDecision at h
+  dsimp only at h
+  repeat' split at h
+  all_goals (try (simp at h; done))
+  all_goals
+    (simp only [Except.ok.injEq, Option.some.injEq, Prod.mk.injEq] at h
+     obtain ⟨h1, _⟩ := h
+     subst h1
+     simp)
+
+theorem finishNamed_phi (o : Opts) (m : Mach) (inp : Str) (cr : CharRefSt) (ec : Option Char) (nb : Str)
+    (hil : m.ignoreLf = false) (hr : m.reconsume = false) (hnb : cr.nameBuf = some nb)
+    (h1 : cr.nameMatch ≠ none → ∀ x ∈ nb.take cr.nameLen, isBrk x = false)
+    (h2 : ∀ c, ec = some c → isAsciiAlnum c = true → ∀ x ∈ nb, isBrk x = false)
+    (hhex : ∀ c, cr.hexMarker = some c → isBrk c = false) :
+    CROk m nb inp (finishNamed o m inp cr ec) := by
+  unfold finishNamed
+  rw [hnb]
+  dsimp only
+  cases hm : cr.nameMatch with
+  | none =>
+    dsimp only
+    cases ec with
+    | none =>
+      simp only [Bool.false_eq_true, ↓reduceIte]
+      exact ⟨rfl, hil, hr, rfl⟩
+    | some c =>
+      dsimp only
+      by_cases hcb : isAsciiAlnum c = true
+      · simp only [hcb, ↓reduceIte]
+        refine ⟨rfl, hil, hr, ⟨?_, ?_, hhex⟩, by simp⟩
+        · simpa using h2 c rfl hcb
+        · intro _ hx; simp at hx
+      · simp only [hcb, Bool.false_eq_true, ↓reduceIte]
+        have hs : SameLines (if (c = ';' && decide (nb.length > 1)) = true then nameErr o m nb else m) m := by
+          split
+          · exact sameLines_nameErr o m nb
+          · exact SameLines.refl m
+        exact ⟨hs.1, by rw [hs.2.1, hil], by rw [hs.2.2, hr], rfl⟩
+  | some mt =>
+    obtain ⟨c1, c2⟩ := mt
+    dsimp only
+    cases hd : namedDecision m cr nb c1 c2 with
+    | error e => trivial
+    | ok r =>
+      cases r with
+      | none => exact ⟨rfl, hil, hr, rfl⟩
+      | some mc =>
+        obtain ⟨m1, chars⟩ := mc
+        obtain ⟨l1, l2, l3⟩ := namedDecision_lines m cr nb c1 c2 m1 chars hd
+        refine ⟨l1, l2, by rw [l3, hr], ?_⟩
+        show brk false (nb.drop cr.nameLen ++ inp) = brk false (nb ++ inp)
+        have hp := h1 (by rw [hm]; simp)
+        conv => rhs; rw [← List.take_append_drop cr.nameLen nb, List.append_assoc]
+        exact (brk_plain_append' _ _ hp).symm
+
+
+theorem finishNumericStatus_phi (o : Opts) (m m0 : Mach) (inp i0 : Str) (cr : CharRefSt) (nb : Str)
+    (hs : SameLines m m0) (hil : m0.ignoreLf = false) (hr : m0.reconsume = false)
+    (hb : brk false inp = brk false (nb ++ i0)) :
+    CROk m0 nb i0 (finishNumericStatus o m inp cr) := by
+  unfold finishNumericStatus
+  have hf := sameLines_finishNumeric o m cr
+  cases hfn : finishNumeric o m cr with
+  | mk m1 r =>
+    rw [hfn] at hf
+    cases r with
+    | error e => trivial
+    | ok ch =>
+      exact ⟨by rw [hf.1, hs.1], by rw [hf.2.1, hs.2.1, hil], by rw [hf.2.2, hs.2.2, hr], hb⟩
+
+theorem crStep_phi (o : Opts) (m : Mach) (inp : Str) (cr : CharRefSt)
+    (hil : m.ignoreLf = false) (hr : m.reconsume = false) (hc : CRLines cr) (hs : CRSafe cr) :
+    CROk m (cr.nameBuf.getD []) inp (crStep o m inp cr) := by
+  unfold crStep
+  cases inp with
+  | nil => simp only [peek, hr, Bool.false_eq_true, ↓reduceIte, List.head?_nil]; exact ⟨rfl, hil, hr, hc, rfl⟩
+  | cons c rest =>
+    simp only [peek, hr, Bool.false_eq_true, ↓reduceIte, List.head?_cons]
+    have hd : discardChar m (c :: rest) = (m, rest) := by simp [discardChar, hr]
+    cases hst : cr.state with
+    | begin =>
+      have hnb : cr.nameBuf = none := hc.noBuf (by simp [hst]) (by simp [hst])
+      simp only [hnb, Option.getD_none, List.nil_append]
+      split
+      · refine ⟨rfl, hil, hr, ⟨by simp, by simp, hc.hex⟩, by simp⟩
+      · split
+        · rename_i hh
+          rw [hd]
+          refine ⟨rfl, hil, hr, ⟨by simp [hnb], fun _ _ => (by simp [hnb]), hc.hex⟩, ?_⟩
+          simp only [hnb, Option.getD_none, List.nil_append]
+          rw [hh, brk_cons_plain _ _ _ (by decide)]
+        · exact ⟨rfl, hil, hr, rfl⟩
+    | octothorpe =>
+      have hnb : cr.nameBuf = none := hc.noBuf (by simp [hst]) (by simp [hst])
+      simp only [hnb, Option.getD_none, List.nil_append]
+      split
+      · rename_i hx
+        rw [hd]
+        have hcb : isBrk c = false := by
+          simp only [Bool.or_eq_true, decide_eq_true_eq] at hx
+          rcases hx with hx | hx <;> (subst hx; decide)
+        refine ⟨rfl, hil, hr, ⟨by simp [hnb], fun _ _ => (by simp [hnb]), ?_⟩, ?_⟩
+        · intro c' hc'; simp only [Option.some.injEq] at hc'; subst hc'; exact hcb
+        · simp only [hnb, Option.getD_none, List.nil_append]
+          rw [brk_cons_plain _ _ _ hcb]
+      · refine ⟨rfl, hil, hr, ⟨by simp [hnb], fun _ _ => (by simp [hnb]), by simp⟩, by simp [hnb]⟩
+    | numeric base =>
+      have hnb : cr.nameBuf = none := hc.noBuf (by simp [hst]) (by simp [hst])
+      simp only [hnb, Option.getD_none, List.nil_append]
+      cases htd : toDigit c base with
+      | some n =>
+        simp only
+        rw [hd]
+        refine ⟨rfl, hil, hr, ⟨by simp [hnb], fun _ _ => (by simp [hnb]), hc.hex⟩, ?_⟩
+        simp only [hnb, Option.getD_none, List.nil_append]
+        rw [brk_cons_plain _ _ _ (toDigit_not_brk c base n htd)]
+      | none =>
+        simp only
+        split
+        · unfold unconsumeNumeric
+          refine ⟨by simp, by simp [hil], by simp [hr], ?_⟩
+          show brk false (('#' :: (match cr.hexMarker with | some c => [c] | none => [])) ++ c :: rest) = _
+          apply brk_plain_append'
+          intro x hx
+          simp only [List.mem_cons] at hx
+          rcases hx with hx | hx
+          · subst hx; decide
+          · cases hh : cr.hexMarker with
+            | none => rw [hh] at hx; simp at hx
+            | some y =>
+              rw [hh] at hx
+              simp only [List.mem_cons, List.not_mem_nil, or_false] at hx
+              subst hx
+              exact hc.hex _ hh
+        · refine ⟨rfl, hil, hr, ⟨by simp [hnb], fun _ _ => (by simp [hnb]), hc.hex⟩, by simp [hnb]⟩
+    | numericSemicolon =>
+      have hnb : cr.nameBuf = none := hc.noBuf (by simp [hst]) (by simp [hst])
+      simp only [hnb, Option.getD_none]
+      split
+      · rename_i hx
+        rw [hd]
+        exact finishNumericStatus_phi o m m rest (c :: rest) cr [] (SameLines.refl m) hil hr
+          (by rw [hx]; exact (brk_cons_plain _ _ _ (by decide)).symm)
+      · exact finishNumericStatus_phi o _ m (c :: rest) (c :: rest) cr [] (sameLines_emitErr m _) hil hr (by simp)
+    | named =>
+      rw [hd]
+      dsimp only
+      cases hnb : cr.nameBuf with
+      | none => trivial
+      | some nb =>
+        dsimp only
+        have hplain : ∀ x ∈ nb, isBrk x = false := by simpa [hnb] using hc.plain
+        have happ : brk false ((nb ++ [c]) ++ rest) = brk false (nb ++ c :: rest) := by simp
+        cases hlk : entityLookup (nb ++ [c]) with
+        | some mt =>
+          dsimp only
+          have hp2 := lookup_no_break _ _ hlk
+          split
+          · exact ⟨rfl, hil, hr, ⟨by simpa using hp2, by simp [hst], hc.hex⟩, by simpa using happ⟩
+          · exact ⟨rfl, hil, hr, ⟨by simpa using hp2, by simp [hst], hc.hex⟩, by simpa using happ⟩
+        | none =>
+          dsimp only
+          have := finishNamed_phi o m rest { cr with state := .named, nameBuf := some (nb ++ [c]) } (some c) (nb ++ [c]) hil hr rfl
+            (by
+              intro hm x hx
+              obtain ⟨c1, c2, hmm⟩ : ∃ c1 c2, cr.nameMatch = some (c1, c2) := by
+                cases h : cr.nameMatch with
+                | none => exact absurd h hm
+                | some v => exact ⟨v.1, v.2, rfl⟩
+              obtain ⟨nb', hnb', _, hle, _⟩ := hs.matched c1 c2 hmm
+              rw [hnb] at hnb'
+              simp only [Option.some.injEq] at hnb'
+              subst hnb'
+              have : List.take cr.nameLen (nb ++ [c]) = List.take cr.nameLen nb := by
+                rw [List.take_append_of_le_length hle]
+              rw [this] at hx
+              exact hplain x (List.mem_of_mem_take hx))
+            (by
+              intro c' hc' hal x hx
+              simp only [Option.some.injEq] at hc'
+              subst hc'
+              rcases List.mem_append.mp hx with hx | hx
+              · exact hplain x hx
+              · simp only [List.mem_cons, List.not_mem_nil, or_false] at hx
+                subst hx
+                exact alnum_not_brk _ hal)
+            hc.hex
+          simp only [Option.getD_some]
+          unfold CROk at this ⊢
+          rw [← happ]
+          exact this
+    | bogusName =>
+      rw [hd]
+      dsimp only
+      cases hnb : cr.nameBuf with
+      | none => trivial
+      | some nb =>
+        dsimp only
+        have hplain : ∀ x ∈ nb, isBrk x = false := by simpa [hnb] using hc.plain
+        split
+        · rename_i hal
+          refine ⟨rfl, hil, hr, ⟨?_, by simp [hst], hc.hex⟩, by simp⟩
+          intro x hx
+          simp only [Option.getD_some] at hx
+          rcases List.mem_append.mp hx with hx | hx
+          · exact hplain x hx
+          · simp only [List.mem_cons, List.not_mem_nil, or_false] at hx
+            subst hx
+            exact alnum_not_brk _ hal
+        · have hsl : SameLines (if c = ';' then nameErr o m (nb ++ [c]) else m) m := by
+            split
+            · exact sameLines_nameErr o m _
+            · exact SameLines.refl m
+          exact ⟨hsl.1, by rw [hsl.2.1, hil], by rw [hsl.2.2, hr], by simp⟩
+
+
+/-! ### the step-level invariant -/
+
+theorem transSet_not_bav (o : Opts) (pol : Pol) (m : Mach) (r : SetRes)
+    (hk : readKind m.state = .popExcept ∨ readKind m.state = .dataSimd) :
+    (transSet o pol m r).1.state ≠ .beforeAttributeValue := by
+  have h1 := emitTag_state pol .data m
+  cases hs : m.state with
+  | data => cases r <;> simp only [transSet, hs] <;> (repeat' split) <;> simp_all [sinkState]
+  | plaintext => cases r <;> simp only [transSet, hs] <;> (repeat' split) <;> simp_all [sinkState]
+  | rawData k =>
+    cases k with
+    | scriptDataEscaped e =>
+      cases e <;> cases r <;> simp only [transSet, hs] <;> (repeat' split) <;> simp_all [sinkState]
+    | _ => cases r <;> simp only [transSet, hs] <;> (repeat' split) <;> simp_all [sinkState]
+  | attributeValue k =>
+    cases k <;> cases r <;> simp only [transSet, hs] <;> (repeat' split) <;>
+      (first | (simp_all [sinkState]; done) | (rcases h1 with h1 | h1 | h1 | ⟨k', h1⟩ <;> simp_all))
+  | _ => simp [hs, readKind] at hk
+
+/-- a character reference is only ever started on `&` -/
+theorem transSet_amp (o : Opts) (pol : Pol) (m : Mach) (r : SetRes) (hcr : m.charRef = none)
+    (h : (transSet o pol m r).1.charRef ≠ none) : r = .fromSet '&' := by
+  have he := emitTag_charRef pol .data m
+  unfold transSet at h
+  split at h <;> (repeat' split at h) <;> simp_all
+
+def R.pair? : R → Option (Mach × Str)
+  | .cont m i | .suspend m i | .script m i | .indicator m i => some (m, i)
+  | .panic _ => none
+
+theorem ofSig_pair (ms : Mach × Sig) (inp : Str) (m' : Mach) (i' : Str)
+    (h : (ofSig ms inp).pair? = some (m', i')) : m' = ms.1 ∧ i' = inp := by
+  unfold ofSig at h
+  split at h <;> simp_all [R.pair?]
+
+theorem pair_mach (r : R) (m' : Mach) (i' : Str) (h : r.pair? = some (m', i')) : r.mach? = some m' := by
+  cases r <;> simp_all [R.pair?, R.mach?]
+
+
+theorem foldChar_currentChar (o : Opts) (m : Mach) (c : Char) :
+    (foldChar o m c).2.currentChar = (foldChar o m c).1 := rfl
+
+theorem getChar_ri (o : Opts) (m m1 : Mach) (inp i1 : Str) (c : Char)
+    (hri : m.reconsume = true → m.ignoreLf = true → m.currentChar = '\n')
+    (h : getChar o m inp = (some c, m1, i1)) :
+    m1.currentChar = c ∧ (m1.ignoreLf = true → c = '\n') := by
+  have hf := getChar_fields o m m1 inp i1 c h
+  cases hr : m.reconsume with
+  | true =>
+    unfold getChar at h
+    simp only [hr, ↓reduceIte, Prod.mk.injEq, Option.some.injEq] at h
+    obtain ⟨h1, h2, _⟩ := h
+    subst h1 h2
+    refine ⟨by simp, fun hil => ?_⟩
+    exact hri hr (by simpa using hil)
+  | false =>
+    refine ⟨?_, hf.2.2.2.2.2.1 hr⟩
+    unfold getChar at h
+    simp only [hr, Bool.false_eq_true, ↓reduceIte] at h
+    cases inp with
+    | nil => simp at h
+    | cons x xs =>
+      obtain ⟨m0, c0, _, _, hc, hm1⟩ := preprocess_via_fold o m m1 x c xs i1 h
+      rw [hm1, hc]
+      exact foldChar_currentChar o m0 c0
+
+/-- the accounting invariant of the machine at step boundaries -/
+structure LInv (m : Mach) : Prop where
+  good : Good m
+  safe : Safe m
+  notEof : m.atEof = false
+  nr : isRaw m.state = false → m.state ≠ .markupDeclarationOpen → m.state ≠ .afterDoctypeName → m.tempBuf = []
+  peekNoRecon : (m.state = .beforeAttributeValue ∨ m.state = .markupDeclarationOpen ∨ m.state = .afterDoctypeName) →
+    m.reconsume = false
+  ri : m.reconsume = true → m.ignoreLf = true → m.currentChar = '\n'
+  stashOk : ∀ c ∈ stash m, isBrk c = false
+  cr : ∀ cr, m.charRef = some cr → m.ignoreLf = false ∧ m.reconsume = false ∧ CRLines cr
+
+theorem stash_nil_of {m : Mach} (hcr : m.charRef = none)
+    (h : (m.state = .markupDeclarationOpen ∨ m.state = .afterDoctypeName) → m.tempBuf = []) : stash m = [] := by
+  unfold stash
+  rw [hcr]
+  dsimp only
+  split
+  · rename_i hs; exact h hs
+  · rfl
+
+/-- what the table leaves behind after a `get_char!` read (also used for the last read of
+`after-doctype-name`) -/
+theorem afterChar_lines (o : Opts) (pol : Pol) (m1 : Mach) (c : Char)
+    (hcr : m1.charRef = none) (hN : isRaw m1.state = false → m1.tempBuf = [])
+    (hrec : m1.reconsume = false) (hcc : m1.currentChar = c) (hil : m1.ignoreLf = true → c = '\n') :
+    let m' := (transChar o pol m1 c).1
+    (isRaw m'.state = false → m'.tempBuf = []) ∧
+    ((m'.state = .beforeAttributeValue ∨ m'.state = .markupDeclarationOpen ∨ m'.state = .afterDoctypeName) →
+      m'.reconsume = false) ∧
+    (m'.reconsume = true → m'.ignoreLf = true → m'.currentChar = '\n') ∧
+    m'.charRef = none ∧ stash m' = [] ∧ m'.line = m1.line ∧ m'.ignoreLf = m1.ignoreLf := by
+  intro m'
+  have hnr : isRaw m'.state = false → m'.tempBuf = [] := by
+    intro hraw
+    by_cases ht : m'.tempBuf = []
+    · exact ht
+    · have := transChar_nr o pol m1 c hN ht
+      rw [hraw] at this; simp at this
+  have hcr' : m'.charRef = none := by rw [transChar_charRef, hcr]
+  refine ⟨hnr, ?_, ?_, hcr', ?_, transChar_line o pol m1 c, transChar_ignoreLf o pol m1 c⟩
+  · intro hs
+    cases hr' : m'.reconsume with
+    | false => rfl
+    | true =>
+      obtain ⟨a, b, d⟩ := transChar_recon o pol m1 c hrec hr'
+      rcases hs with hs | hs | hs
+      · exact absurd hs a
+      · exact absurd hs b
+      · exact absurd hs d
+  · intro _ hil'
+    rw [transChar_currentChar, hcc]
+    rw [transChar_ignoreLf] at hil'
+    exact hil hil'
+  · apply stash_nil_of hcr'
+    intro hs
+    apply hnr
+    rcases hs with hs | hs <;> rw [hs] <;> rfl
+
+
+theorem stash_congr {m m' : Mach} (h1 : m'.state = m.state) (h2 : m'.tempBuf = m.tempBuf)
+    (h3 : m'.charRef = m.charRef) : stash m' = stash m := by
+  unfold stash; rw [h1, h2, h3]
+
+/-- clearing a pending-LF flag keeps the invariant -/
+theorem LInv.setIgnoreLf_false {m : Mach} (hi : LInv m) (hg : Good (m.setIgnoreLf false))
+    (hs : Safe (m.setIgnoreLf false)) : LInv (m.setIgnoreLf false) where
+  good := hg
+  safe := hs
+  notEof := by simpa using hi.notEof
+  nr := by simpa using hi.nr
+  peekNoRecon := by simpa using hi.peekNoRecon
+  ri := by intro _ h; simp at h
+  stashOk := by
+    rw [stash_congr (m := m) (by simp) (by simp) (by simp)]; exact hi.stashOk
+  cr := by
+    intro cr hcr
+    have := hi.cr cr (by simpa using hcr)
+    exact ⟨by simp, by simpa using this.2.1, this.2.2⟩
+
+theorem phi_eq {m m' : Mach} {i i' : Str} (hs : stash m = []) (hs' : stash m' = [])
+    (h : m'.line + brk m'.ignoreLf i' = m.line + brk m.ignoreLf i) : Phi m' i' = Phi m i := by
+  unfold Phi; rw [hs, hs']; simpa using h
+
+theorem lines_getChar (o : Opts) (pol : Pol) (m : Mach) (inp : Str) (hi : LInv m)
+    (hcr : m.charRef = none) (hrk : readKind m.state = .getChar) (m' : Mach) (i' : Str)
+    (h : (contChar o pol (getChar o m inp)).pair? = some (m', i'))
+    (hg' : Good m') (hs' : Safe m') (he' : m'.atEof = false) :
+    LInv m' ∧ Phi m' i' = Phi m inp := by
+  have hf := readKind_getChar_facts hrk
+  have hst : stash m = [] := stash_nil_of hcr (by
+    intro hs; rcases hs with hs | hs
+    · exact absurd hs hf.1
+    · exact absurd hs hf.2.2)
+  have hphi := getChar_phi o m inp
+  cases hgc : getChar o m inp with
+  | mk oc r =>
+    obtain ⟨m1, i1⟩ := r
+    rw [hgc] at h hphi
+    simp only at hphi
+    cases oc with
+    | none =>
+      obtain ⟨g1, g2, g3⟩ := getChar_none o m m1 inp i1 hgc
+      simp only [contChar, R.pair?, Option.some.injEq, Prod.mk.injEq] at h
+      obtain ⟨h1, h2⟩ := h
+      subst h1 h2
+      rcases g3 with ⟨_, g4⟩ | ⟨_, _, g4⟩ <;> subst g4
+      · exact ⟨hi, phi_eq hst hst hphi⟩
+      · exact ⟨hi.setIgnoreLf_false hg' hs',
+          phi_eq hst (by rw [stash_congr (m := m) (by simp) (by simp) (by simp)]; exact hst) hphi⟩
+    | some c =>
+      obtain ⟨f1, f2, f3, f4, _⟩ := getChar_fields o m m1 inp i1 c hgc
+      obtain ⟨r1, r2⟩ := getChar_ri o m m1 inp i1 c hi.ri hgc
+      simp only [contChar] at h
+      obtain ⟨h1, h2⟩ := ofSig_pair _ _ _ _ h
+      subst h1 h2
+      obtain ⟨a1, a2, a3, a4, a5, a6, a7⟩ := afterChar_lines o pol m1 c (by rw [f4, hcr])
+        (by intro hraw; rw [f2]; rw [f1] at hraw; exact hi.nr hraw hf.1 hf.2.2) f3 r1 r2
+      refine ⟨⟨hg', hs', he', fun hraw _ _ => a1 hraw, a2, a3, by rw [a5]; intro c hc; exact absurd hc List.not_mem_nil,
+        by intro cr hcr'; rw [a4] at hcr'; simp at hcr'⟩, phi_eq hst a5 ?_⟩
+      rw [a6, a7]; exact hphi
+
+
+theorem CRLines.fresh (b : Bool) : CRLines { inAttr := b } :=
+  ⟨by simp, fun _ _ => rfl, by simp⟩
+
+theorem afterSet_lines (o : Opts) (pol : Pol) (m1 : Mach) (sr : SetRes)
+    (hcr : m1.charRef = none) (hk : readKind m1.state = .popExcept ∨ readKind m1.state = .dataSimd)
+    (hN : isRaw m1.state = false → m1.tempBuf = []) (hrec : m1.reconsume = false)
+    (hamp : m1.ignoreLf = true → sr ≠ .fromSet '&') :
+    let m' := (transSet o pol m1 sr).1
+    (isRaw m'.state = false → m'.tempBuf = []) ∧
+    (m'.state ≠ .beforeAttributeValue ∧ m'.state ≠ .markupDeclarationOpen ∧ m'.state ≠ .afterDoctypeName) ∧
+    m'.reconsume = false ∧
+    (∀ cr, m'.charRef = some cr → m'.ignoreLf = false ∧ CRLines cr) ∧
+    stash m' = [] ∧ m'.line = m1.line ∧ m'.ignoreLf = m1.ignoreLf := by
+  intro m'
+  have hsf := readKind_state_facts hk
+  have hne := transSet_not_eat o pol m1 sr ⟨hsf.1, hsf.2.1⟩
+  have hnb := transSet_not_bav o pol m1 sr hk
+  have hcrf := (transSet_charRef o pol m1 sr hcr hk).2
+  have hcrl : ∀ cr, m'.charRef = some cr → m'.ignoreLf = false ∧ CRLines cr := by
+    intro cr hcr'
+    rcases hcrf with hx | ⟨hx, _, _⟩
+    · rw [hx] at hcr'; simp at hcr'
+    · rw [hx] at hcr'
+      simp only [Option.some.injEq] at hcr'
+      subst hcr'
+      refine ⟨?_, CRLines.fresh _⟩
+      cases hil : m'.ignoreLf with
+      | false => rfl
+      | true =>
+        have h1 : m1.ignoreLf = true := by rw [← transSet_ignoreLf o pol m1 sr]; exact hil
+        have h2 := transSet_amp o pol m1 sr hcr (by rw [hx]; simp)
+        exact absurd h2 (hamp h1)
+  refine ⟨?_, ⟨hnb, hne.1, hne.2⟩, by rw [transSet_reconsume, hrec], hcrl, ?_, transSet_line o pol m1 sr,
+    transSet_ignoreLf o pol m1 sr⟩
+  · intro hraw
+    rw [transSet_tempBuf]
+    cases hr1 : isRaw m1.state with
+    | false => exact hN hr1
+    | true =>
+      have := transSet_raw o pol m1 sr hr1
+      rw [hraw] at this; simp at this
+  · rcases hcrf with hx | ⟨hx, _, _⟩
+    · exact stash_nil_of hx (by intro hs; rcases hs with hs | hs; exact absurd hs hne.1; exact absurd hs hne.2)
+    · unfold stash; rw [hx]; rfl
+
+
+theorem popExceptFrom_ri (o : Opts) (S : List Char) (m m1 : Mach) (inp i1 : Str) (sr : SetRes)
+    (hri : m.reconsume = true → m.ignoreLf = true → m.currentChar = '\n')
+    (h : popExceptFrom o S m inp = (some sr, m1, i1)) : m1.ignoreLf = true → sr = .fromSet '\n' := by
+  unfold popExceptFrom at h
+  split at h
+  · cases hg : getChar o m inp with
+    | mk c rest =>
+      obtain ⟨m2, i2⟩ := rest
+      rw [hg] at h
+      cases c with
+      | none => simp at h
+      | some c =>
+        simp only [Option.map_some, Prod.mk.injEq, Option.some.injEq] at h
+        obtain ⟨h1, h2, _⟩ := h
+        subst h1 h2
+        intro hil
+        rw [(getChar_ri o m m2 inp i2 c hri hg).2 hil]
+  · rename_i hs
+    have hs' : o.exactErrors = false ∧ m.reconsume = false ∧ m.ignoreLf = false := by
+      simpa [and_assoc] using hs
+    cases inp with
+    | nil => simp at h
+    | cons x xs =>
+      simp only at h
+      split at h
+      · have hg : getChar o m (x :: xs) = preprocess o m x xs := by
+          unfold getChar; simp [hs'.2.1]
+        cases hp : preprocess o m x xs with
+        | mk c rest =>
+          obtain ⟨m2, i2⟩ := rest
+          rw [hp] at h hg
+          cases c with
+          | none => simp at h
+          | some c =>
+            simp only [Option.map_some, Prod.mk.injEq, Option.some.injEq] at h
+            obtain ⟨h1, h2, _⟩ := h
+            subst h1 h2
+            intro hil
+            rw [(getChar_ri o m m2 (x :: xs) i2 c hri hg).2 hil]
+      · simp only [Prod.mk.injEq, Option.some.injEq] at h
+        obtain ⟨_, h2, _⟩ := h
+        subst h2
+        intro hil; rw [hs'.2.2] at hil; simp at hil
+
+theorem readData_ri (o : Opts) (m m1 : Mach) (inp i1 : Str) (sr : SetRes)
+    (hri : m.reconsume = true → m.ignoreLf = true → m.currentChar = '\n')
+    (h : readData o m inp = (some sr, m1, i1)) : m1.ignoreLf = true → sr = .fromSet '\n' := by
+  unfold readData at h
+  split at h
+  · exact popExceptFrom_ri o _ m m1 inp i1 sr hri h
+  · rename_i hs
+    have hs' : o.exactErrors = false ∧ m.reconsume = false ∧ m.ignoreLf = false := by
+      simpa [and_assoc] using hs
+    cases inp with
+    | nil => simp at h
+    | cons x xs =>
+      simp only at h
+      split at h
+      · exact popExceptFrom_ri o _ m m1 (x :: xs) i1 sr hri h
+      · simp only [Prod.mk.injEq, Option.some.injEq] at h
+        obtain ⟨_, h2, _⟩ := h
+        subst h2
+        intro hil
+        have : m.ignoreLf = true := by
+          revert hil; split <;> simp
+        rw [hs'.2.2] at this; simp at this
+
+/-- a `pop_except_from` / data-state step, given what its read did -/
+theorem lines_set (o : Opts) (pol : Pol) (m : Mach) (inp : Str) (hi : LInv m)
+    (hcr : m.charRef = none) (hk : readKind m.state = .popExcept ∨ readKind m.state = .dataSimd)
+    (rd : Option SetRes × Mach × Str)
+    (hphi : rd.2.1.line + brk rd.2.1.ignoreLf rd.2.2 = m.line + brk m.ignoreLf inp)
+    (hnone : rd.1 = none → rd.2.2 = [] ∧ (rd.2.1 = m ∨ rd.2.1 = m.setIgnoreLf false))
+    (hsome : ∀ sr, rd.1 = some sr → ReadOk m rd.2.1 sr ∧ (rd.2.1.ignoreLf = true → sr = .fromSet '\n'))
+    (m' : Mach) (i' : Str) (h : (contSet o pol rd).pair? = some (m', i'))
+    (hg' : Good m') (hs' : Safe m') (he' : m'.atEof = false) :
+    LInv m' ∧ Phi m' i' = Phi m inp := by
+  have hsf := readKind_state_facts hk
+  have hst : stash m = [] := stash_nil_of hcr (by
+    intro hs; rcases hs with hs | hs
+    · exact absurd hs hsf.1
+    · exact absurd hs hsf.2.1)
+  obtain ⟨oc, m1, i1⟩ := rd
+  simp only at hphi hnone hsome
+  cases oc with
+  | none =>
+    obtain ⟨g1, g2⟩ := hnone rfl
+    simp only [contSet, R.pair?, Option.some.injEq, Prod.mk.injEq] at h
+    obtain ⟨h1, h2⟩ := h
+    subst h1 h2 g1
+    rcases g2 with g2 | g2 <;> subst g2
+    · exact ⟨hi, phi_eq hst hst hphi⟩
+    · exact ⟨hi.setIgnoreLf_false hg' hs',
+        phi_eq hst (by rw [stash_congr (m := m) (by simp) (by simp) (by simp)]; exact hst) hphi⟩
+  | some sr =>
+    obtain ⟨⟨f1, f2, f3, f4, _, _⟩, hri⟩ := hsome sr rfl
+    simp only [contSet] at h
+    obtain ⟨h1, h2⟩ := ofSig_pair _ _ _ _ h
+    subst h1 h2
+    obtain ⟨a1, a2, a3, a4, a5, a6, a7⟩ := afterSet_lines o pol m1 sr (by rw [f4, hcr]) (by rw [f1]; exact hk)
+      (by intro hraw; rw [f2]; rw [f1] at hraw; exact hi.nr hraw hsf.1 hsf.2.1) f3
+      (by intro hil hx; have := hri hil; rw [this] at hx; simp at hx)
+    refine ⟨⟨hg', hs', he', fun hraw _ _ => a1 hraw, ?_, by intro hx; rw [a3] at hx; simp at hx,
+      by rw [a5]; intro c hc; exact absurd hc List.not_mem_nil, ?_⟩, phi_eq hst a5 ?_⟩
+    · intro hx
+      rcases hx with hx | hx | hx
+      · exact absurd hx a2.1
+      · exact absurd hx a2.2.1
+      · exact absurd hx a2.2.2
+    · intro cr hcr'
+      obtain ⟨b1, b2⟩ := a4 cr hcr'
+      exact ⟨b1, a3, b2⟩
+    · rw [a6, a7]; exact hphi
+
+
+theorem processCharRef_line (m : Mach) (chars : Str) : (processCharRef m chars).1.line = m.line := by
+  have h1 : ∀ (cs : Str) (m : Mach), (cs.foldl emitChar m).line = m.line := by
+    intro cs; induction cs with
+    | nil => intro m; rfl
+    | cons c cs ih => intro m; simp only [List.foldl_cons]; rw [ih]; simp
+  have h2 : ∀ (cs : Str) (m : Mach), (cs.foldl (fun m c => pushValue c m) m).line = m.line := by
+    intro cs; induction cs with
+    | nil => intro m; rfl
+    | cons c cs ih => intro m; simp only [List.foldl_cons]; rw [ih]; simp
+  unfold processCharRef
+  dsimp only
+  split
+  · exact h1 _ m
+  · exact h1 _ m
+  · exact h2 _ m
+  · rfl
+
+theorem lines_charRef (o : Opts) (m : Mach) (inp : Str) (cr : CharRefSt) (hi : LInv m)
+    (hcr : m.charRef = some cr) (m' : Mach) (i' : Str)
+    (h : (stepCharRef o m inp cr).pair? = some (m', i'))
+    (hg' : Good m') (hs' : Safe m') (he' : m'.atEof = false) :
+    LInv m' ∧ Phi m' i' = Phi m inp := by
+  obtain ⟨c1, c2, c3⟩ := hi.cr cr hcr
+  have hsafe := hi.safe.crRegs cr hcr
+  have hstate := hi.safe.crState cr hcr
+  have hne : m.state ≠ .markupDeclarationOpen ∧ m.state ≠ .afterDoctypeName ∧ m.state ≠ .beforeAttributeValue := by
+    rcases hstate with hx | hx | ⟨k, hx⟩ <;> rw [hx] <;> simp
+  have hphi0 : Phi m inp = m.line + brk false (cr.nameBuf.getD [] ++ inp) := by
+    unfold Phi stash; rw [hcr, c1]
+  have hok := crStep_phi o m inp cr c1 c2 c3 hsafe
+  unfold stepCharRef at h
+  cases hc : crStep o m inp cr with
+  | error x => rw [hc] at h; simp [R.pair?] at h
+  | ok v =>
+    obtain ⟨m1, i1, cr1, st⟩ := v
+    have hw := crStep_weaker o m m1 inp i1 cr cr1 st hc
+    rw [hc] at h hok
+    obtain ⟨k1, k2, k3, k4⟩ := hok
+    have mk : ∀ (mm : Mach), mm.state = m.state → mm.tempBuf = m.tempBuf → mm.reconsume = false →
+        (∀ c ∈ stash mm, isBrk c = false) →
+        (∀ cr, mm.charRef = some cr → mm.ignoreLf = false ∧ mm.reconsume = false ∧ CRLines cr) →
+        Good mm → Safe mm → mm.atEof = false → LInv mm := by
+      intro mm e1 e2 e3 e4 e5 g s a
+      refine ⟨g, s, a, ?_, fun _ => e3, by intro hx; rw [e3] at hx; simp at hx, e4, e5⟩
+      rw [e1, e2]; exact hi.nr
+    cases st with
+    | stuck =>
+      simp only [R.pair?, Option.some.injEq, Prod.mk.injEq] at h
+      obtain ⟨h1, h2⟩ := h
+      subst h1 h2
+      simp only at k4
+      refine ⟨mk _ (by simp [hw.1]) (by simp [hw.2.1]) (by simpa using k3)
+        (by unfold stash; simpa using k4.1.plain) (by
+          intro cr' hcr'
+          simp only [Mach.setCharRef, Option.some.injEq] at hcr'
+          subst hcr'
+          exact ⟨by simpa using k2, by simpa using k3, k4.1⟩) hg' hs' he', ?_⟩
+      rw [hphi0]
+      unfold Phi stash
+      simp only [Mach.setCharRef]
+      rw [k1]
+      have : (m1.setCharRef (some cr1)).ignoreLf = false := by simpa using k2
+      simp only [Mach.setCharRef] at this
+      rw [this, k4.2]
+    | progress =>
+      simp only [R.pair?, Option.some.injEq, Prod.mk.injEq] at h
+      obtain ⟨h1, h2⟩ := h
+      subst h1 h2
+      simp only at k4
+      refine ⟨mk _ (by simp [hw.1]) (by simp [hw.2.1]) (by simpa using k3)
+        (by unfold stash; simpa using k4.1.plain) (by
+          intro cr' hcr'
+          simp only [Mach.setCharRef, Option.some.injEq] at hcr'
+          subst hcr'
+          exact ⟨by simpa using k2, by simpa using k3, k4.1⟩) hg' hs' he', ?_⟩
+      rw [hphi0]
+      unfold Phi stash
+      simp only [Mach.setCharRef]
+      rw [k1]
+      have : (m1.setCharRef (some cr1)).ignoreLf = false := by simpa using k2
+      simp only [Mach.setCharRef] at this
+      rw [this, k4.2]
+    | done chars =>
+      simp only at k4
+      obtain ⟨h1, h2⟩ := ofSig_pair _ _ _ _ h
+      subst h1 h2
+      have hp := processCharRef_fields m1 chars
+      have hpl := processCharRef_line m1 chars
+      have hst' : stash ((processCharRef m1 chars).1.setCharRef none) = [] := by
+        apply stash_nil_of (by simp)
+        intro hx
+        simp only [setCharRef_state, hp.1, hw.1] at hx
+        rcases hx with hx | hx
+        · exact absurd hx hne.1
+        · exact absurd hx hne.2.1
+      refine ⟨mk _ (by simp [hp.1, hw.1]) (by simp [hp.2.1, hw.2.1]) (by simp [hp.2.2.2.1, k3])
+        (by rw [hst']; intro c hc; exact absurd hc List.not_mem_nil)
+        (by intro cr' hcr'; simp at hcr') hg' hs' he', ?_⟩
+      rw [hphi0]
+      unfold Phi
+      rw [hst']
+      simp only [List.nil_append, setCharRef_line, setCharRef_ignoreLf, hpl, hp.2.2.1, k1, k2, k4]
+
+
+/-! ### before-attribute-value (`peek` / `discard_char`) -/
+
+/-- every result of the state: `(fields, accounting)` -/
+theorem stepBav_lines (o : Opts) (pol : Pol) (m : Mach) (inp : Str) (hr : m.reconsume = false)
+    (m' : Mach) (i' : Str) (h : (stepBav o pol m inp).pair? = some (m', i')) :
+    m'.tempBuf = m.tempBuf ∧ m'.reconsume = false ∧
+    m'.line + brk m'.ignoreLf i' = m.line + brk m.ignoreLf inp := by
+  unfold stepBav at h
+  cases inp with
+  | nil =>
+    simp only [peek, hr, Bool.false_eq_true, ↓reduceIte, List.head?_nil, R.pair?, Option.some.injEq,
+      Prod.mk.injEq] at h
+    obtain ⟨h1, h2⟩ := h
+    subst h1 h2
+    exact ⟨rfl, hr, rfl⟩
+  | cons c rest =>
+    simp only [peek, hr, Bool.false_eq_true, ↓reduceIte, List.head?_cons] at h
+    -- the machine after the pending-LF flag was dealt with
+    have hma : ∀ ma : Mach, ma = (if m.ignoreLf = true then m.setIgnoreLf false else m) →
+        ma.tempBuf = m.tempBuf ∧ ma.reconsume = false ∧ ma.line = m.line ∧ ma.ignoreLf = false := by
+      intro ma hx; subst hx
+      split
+      · simp [hr]
+      · rename_i hx; simp [hr]; simpa using hx
+    generalize hmad : (if m.ignoreLf = true then m.setIgnoreLf false else m) = ma at h
+    obtain ⟨t1, t2, t3, t4⟩ := hma ma hmad.symm
+    have hd : discardChar ma (c :: rest) = (ma, rest) := by simp [discardChar, t2]
+    by_cases hskip : (m.ignoreLf && decide (c = '\n')) = true
+    · simp only [hskip, ↓reduceIte, hd, R.pair?, Option.some.injEq, Prod.mk.injEq] at h
+      obtain ⟨h1, h2⟩ := h
+      subst h1 h2
+      simp only [Bool.and_eq_true, decide_eq_true_eq] at hskip
+      refine ⟨t1, t2, ?_⟩
+      rw [t3, t4, hskip.1, hskip.2, brk_cons_lf]; simp
+    · simp only [hskip, Bool.false_eq_true, ↓reduceIte] at h
+      -- from here on the flag no longer matters for `c :: rest`
+      have hflag : brk m.ignoreLf (c :: rest) = brk false (c :: rest) := by
+        cases hil : m.ignoreLf with
+        | false => rfl
+        | true =>
+          have : c ≠ '\n' := by
+            intro hc; simp [hil, hc] at hskip
+          exact brk_flag c rest this
+      by_cases hbrk : c = '\n' ∨ c = '\r'
+      · rw [if_pos (by simpa using hbrk)] at h
+        have hphi := getChar_phi o ma (c :: rest)
+        cases hg : getChar o ma (c :: rest) with
+        | mk oc r =>
+          obtain ⟨m2, i2⟩ := r
+          rw [hg] at h hphi
+          simp only at hphi
+          cases oc with
+          | none =>
+            obtain ⟨_, _, g3⟩ := getChar_none o ma m2 (c :: rest) i2 hg
+            simp only [R.pair?, Option.some.injEq, Prod.mk.injEq] at h
+            obtain ⟨h1, h2⟩ := h
+            subst h1 h2
+            rcases g3 with ⟨g3, _⟩ | ⟨_, g3, _⟩
+            · simp at g3
+            · rw [t4] at g3; simp at g3
+          | some c2 =>
+            obtain ⟨f1, f2, f3, _⟩ := getChar_fields o ma m2 (c :: rest) i2 c2 hg
+            simp only [R.pair?, Option.some.injEq, Prod.mk.injEq] at h
+            obtain ⟨h1, h2⟩ := h
+            subst h1 h2
+            exact ⟨by rw [f2, t1], f3, by rw [hphi, t3, t4, hflag]⟩
+      · rw [if_neg (by simpa using hbrk)] at h
+        have hnb : isBrk c = false := by
+          simp only [not_or] at hbrk
+          simp [isBrk, hbrk.1, hbrk.2]
+        have hcons : brk m.ignoreLf (c :: rest) = brk false rest := by
+          rw [hflag, brk_cons_plain _ _ _ hnb]
+        split at h
+        · simp only [hd, R.pair?, Option.some.injEq, Prod.mk.injEq] at h
+          obtain ⟨h1, h2⟩ := h
+          subst h1 h2
+          exact ⟨t1, t2, by rw [t3, t4, hcons]⟩
+        · split at h
+          · simp only [hd, R.pair?, Option.some.injEq, Prod.mk.injEq] at h
+            obtain ⟨h1, h2⟩ := h
+            subst h1 h2
+            exact ⟨by simp [t1], by simp [t2], by simp [t3, t4, hcons]⟩
+          · split at h
+            · simp only [hd, R.pair?, Option.some.injEq, Prod.mk.injEq] at h
+              obtain ⟨h1, h2⟩ := h
+              subst h1 h2
+              exact ⟨by simp [t1], by simp [t2], by simp [t3, t4, hcons]⟩
+            · split at h
+              · simp only [hd] at h
+                obtain ⟨h1, h2⟩ := ofSig_pair _ _ _ _ h
+                subst h1 h2
+                exact ⟨by simp [t1], by simp [t2], by simp [t3, t4, hcons]⟩
+              · simp only [R.pair?, Option.some.injEq, Prod.mk.injEq] at h
+                obtain ⟨h1, h2⟩ := h
+                subst h1 h2
+                exact ⟨by simp [t1], by simp [t2], by simp [t3, t4, hflag]⟩
+
+
+/-! ### the look-ahead states -/
+
+theorem stash_eat {m : Mach} (hcr : m.charRef = none)
+    (hs : m.state = .markupDeclarationOpen ∨ m.state = .afterDoctypeName) : stash m = m.tempBuf := by
+  unfold stash; rw [hcr]; simp [hs]
+
+theorem stash_plain {m : Mach} (hcr : m.charRef = none)
+    (h1 : m.state ≠ .markupDeclarationOpen) (h2 : m.state ≠ .afterDoctypeName) : stash m = [] :=
+  stash_nil_of hcr (by intro hs; rcases hs with hs | hs; exact absurd hs h1; exact absurd hs h2)
+
+/-- the facts carried from one `eat` to the next inside a look-ahead state -/
+structure EatSt (s : State) (K : Nat) (m : Mach) (i : Str) : Prop where
+  st : m.state = s
+  cr : m.charRef = none
+  nrec : m.reconsume = false
+  ok : EatOk m
+  ne : m.atEof = false
+  phi : m.line + brk m.ignoreLf (m.tempBuf ++ i) = K
+
+theorem eat_stage {s : State} {K : Nat} {m : Mach} {i : Str} (h0 : EatSt s K m i)
+    (pat : Str) (eq : Char → Char → Bool) (hp : PatOk eq pat) (hne : pat ≠ [])
+    (b : Option Bool) (m1 : Mach) (i1 : Str) (h : eat m i pat eq = (b, m1, i1)) :
+    EatSt s K m1 i1 ∧ (b ≠ none → m1.tempBuf = []) ∧ (b = none → ∀ c ∈ m1.tempBuf, isBrk c = false) := by
+  obtain ⟨p1, p2, p3, p4, p5, p6⟩ := eat_phi m i pat eq h0.nrec h0.ok h0.ne hp hne b m1 i1 h
+  obtain ⟨f1, f2, f3⟩ := eat_fields m m1 i i1 pat eq b h
+  exact ⟨⟨by rw [f1, h0.st], by rw [f2, h0.cr], p2, p3, by rw [f3, h0.ne], by rw [p1, p4]; exact h0.phi⟩, p5, p6⟩
+
+/-- a terminal result of a look-ahead state: machine `mm` derived from the last `eat`'s machine by
+operations that touch neither the line registers nor `temp_buf` (or clear it) -/
+theorem eat_exit {s : State} {K : Nat} {m1 : Mach} {i1 : Str} (h1 : EatSt s K m1 i1) (ht : m1.tempBuf = [])
+    (mm : Mach) (e1 : mm.line = m1.line) (e2 : mm.ignoreLf = m1.ignoreLf) (e3 : mm.tempBuf = [])
+    (e4 : mm.reconsume = false) (e5 : mm.charRef = none)
+    (e6 : mm.state ≠ .markupDeclarationOpen) (e7 : mm.state ≠ .afterDoctypeName) :
+    mm.reconsume = false ∧ mm.charRef = none ∧ (∀ c ∈ stash mm, isBrk c = false) ∧
+    Phi mm i1 = K ∧ (mm.state ≠ s → mm.tempBuf = []) := by
+  have hst := stash_plain e5 e6 e7
+  refine ⟨e4, e5, by rw [hst]; intro c hc; exact absurd hc List.not_mem_nil, ?_, fun _ => e3⟩
+  unfold Phi
+  rw [hst, e1, e2]
+  have := h1.phi
+  rw [ht] at this
+  simpa using this
+
+theorem eat_suspend {s : State} {K : Nat} {m1 : Mach} {i1 : Str} (h1 : EatSt s K m1 i1)
+    (hs : s = .markupDeclarationOpen ∨ s = .afterDoctypeName)
+    (hpl : ∀ c ∈ m1.tempBuf, isBrk c = false) :
+    m1.reconsume = false ∧ m1.charRef = none ∧ (∀ c ∈ stash m1, isBrk c = false) ∧
+    Phi m1 i1 = K ∧ (m1.state ≠ s → m1.tempBuf = []) := by
+  have hst : stash m1 = m1.tempBuf := stash_eat h1.cr (by rw [h1.st]; exact hs)
+  refine ⟨h1.nrec, h1.cr, by rw [hst]; exact hpl, ?_, fun hx => absurd h1.st hx⟩
+  unfold Phi; rw [hst]; exact h1.phi
+
+theorem stepMdo_lines (o : Opts) (pol : Pol) (m : Mach) (inp : Str) (K : Nat)
+    (h0 : EatSt .markupDeclarationOpen K m inp) (m' : Mach) (i' : Str)
+    (h : (stepMdo o pol m inp).pair? = some (m', i')) :
+    m'.reconsume = false ∧ m'.charRef = none ∧ (∀ c ∈ stash m', isBrk c = false) ∧
+    Phi m' i' = K ∧ (m'.state ≠ .markupDeclarationOpen → m'.tempBuf = []) := by
+  obtain ⟨pk1, pk2, pk3, _, _⟩ := patOk_kw
+  obtain ⟨n1, n2, n3, _, _⟩ := kw_ne
+  unfold stepMdo at h
+  cases h1 : eat m inp kwDashDash eqExact with
+  | mk b1 r1 =>
+    obtain ⟨m1, i1⟩ := r1
+    obtain ⟨s1, t1, u1⟩ := eat_stage h0 _ _ pk1 n1 b1 m1 i1 h1
+    rw [h1] at h
+    cases b1 with
+    | none =>
+      simp only [R.pair?, Option.some.injEq, Prod.mk.injEq] at h
+      obtain ⟨e1, e2⟩ := h; subst e1 e2
+      exact eat_suspend s1 (Or.inl rfl) (u1 rfl)
+    | some b1 =>
+      cases b1 with
+      | true =>
+        simp only [R.pair?, Option.some.injEq, Prod.mk.injEq] at h
+        obtain ⟨e1, e2⟩ := h; subst e1 e2
+        exact eat_exit s1 (t1 (by simp)) _ (by simp) (by simp) (by simp [t1]) (by simp [s1.nrec]) (by simp [s1.cr])
+          (by simp) (by simp)
+      | false =>
+        simp only at h
+        cases h2 : eat m1 i1 kwDoctype eqCi with
+        | mk b2 r2 =>
+          obtain ⟨m2, i2⟩ := r2
+          obtain ⟨s2, t2, u2⟩ := eat_stage s1 _ _ pk2 n2 b2 m2 i2 h2
+          rw [h2] at h
+          cases b2 with
+          | none =>
+            simp only [R.pair?, Option.some.injEq, Prod.mk.injEq] at h
+            obtain ⟨e1, e2⟩ := h; subst e1 e2
+            exact eat_suspend s2 (Or.inl rfl) (u2 rfl)
+          | some b2 =>
+            cases b2 with
+            | true =>
+              simp only [R.pair?, Option.some.injEq, Prod.mk.injEq] at h
+              obtain ⟨e1, e2⟩ := h; subst e1 e2
+              exact eat_exit s2 (t2 (by simp)) _ (by simp) (by simp) (by simp [t2]) (by simp [s2.nrec])
+                (by simp [s2.cr]) (by simp) (by simp)
+            | false =>
+              simp only at h
+              split at h
+              · cases h3 : eat m2 i2 kwCdata eqExact with
+                | mk b3 r3 =>
+                  obtain ⟨m3, i3⟩ := r3
+                  obtain ⟨s3, t3, u3⟩ := eat_stage s2 _ _ pk3 n3 b3 m3 i3 h3
+                  rw [h3] at h
+                  cases b3 with
+                  | none =>
+                    simp only [R.pair?, Option.some.injEq, Prod.mk.injEq] at h
+                    obtain ⟨e1, e2⟩ := h; subst e1 e2
+                    exact eat_suspend s3 (Or.inl rfl) (u3 rfl)
+                  | some b3 =>
+                    cases b3 <;>
+                      (simp only [R.pair?, Option.some.injEq, Prod.mk.injEq] at h
+                       obtain ⟨e1, e2⟩ := h; subst e1 e2
+                       exact eat_exit s3 (t3 (by simp)) _ (by simp) (by simp) (by simp [t3, clearTemp]) (by simp [s3.nrec])
+                         (by simp [s3.cr]) (by simp) (by simp))
+              · simp only [R.pair?, Option.some.injEq, Prod.mk.injEq] at h
+                obtain ⟨e1, e2⟩ := h; subst e1 e2
+                exact eat_exit s2 (t2 (by simp)) _ (by simp) (by simp) (by simp [t2]) (by simp [s2.nrec])
+                  (by simp [s2.cr]) (by simp) (by simp)
+
+
+theorem stepAdn_lines (o : Opts) (pol : Pol) (m : Mach) (inp : Str) (K : Nat)
+    (h0 : EatSt .afterDoctypeName K m inp) (m' : Mach) (i' : Str)
+    (h : (stepAdn o pol m inp).pair? = some (m', i')) :
+    ((m'.state = .beforeAttributeValue ∨ m'.state = .markupDeclarationOpen ∨ m'.state = .afterDoctypeName) →
+      m'.reconsume = false) ∧
+    (m'.reconsume = true → m'.ignoreLf = true → m'.currentChar = '\n') ∧
+    m'.charRef = none ∧ (∀ c ∈ stash m', isBrk c = false) ∧
+    Phi m' i' = K ∧ (isRaw m'.state = false → m'.state ≠ .afterDoctypeName → m'.tempBuf = []) := by
+  obtain ⟨_, _, _, pk4, pk5⟩ := patOk_kw
+  obtain ⟨_, _, _, n4, n5⟩ := kw_ne
+  -- results in which `reconsume` is known to be clear
+  have pack : ∀ mm ii, (mm.reconsume = false ∧ mm.charRef = none ∧ (∀ c ∈ stash mm, isBrk c = false) ∧
+      Phi mm ii = K ∧ (mm.state ≠ .afterDoctypeName → mm.tempBuf = [])) →
+      ((mm.state = .beforeAttributeValue ∨ mm.state = .markupDeclarationOpen ∨ mm.state = .afterDoctypeName) →
+        mm.reconsume = false) ∧
+      (mm.reconsume = true → mm.ignoreLf = true → mm.currentChar = '\n') ∧
+      mm.charRef = none ∧ (∀ c ∈ stash mm, isBrk c = false) ∧
+      Phi mm ii = K ∧ (isRaw mm.state = false → mm.state ≠ .afterDoctypeName → mm.tempBuf = []) := by
+    intro mm ii ⟨q1, q2, q3, q4, q5⟩
+    exact ⟨fun _ => q1, by intro hx; rw [q1] at hx; simp at hx, q2, q3, q4, fun _ hx => q5 hx⟩
+  unfold stepAdn at h
+  cases h1 : eat m inp kwPublic eqCi with
+  | mk b1 r1 =>
+    obtain ⟨m1, i1⟩ := r1
+    obtain ⟨s1, t1, u1⟩ := eat_stage h0 _ _ pk4 n4 b1 m1 i1 h1
+    rw [h1] at h
+    cases b1 with
+    | none =>
+      simp only [R.pair?, Option.some.injEq, Prod.mk.injEq] at h
+      obtain ⟨e1, e2⟩ := h; subst e1 e2
+      exact pack _ _ (eat_suspend s1 (Or.inr rfl) (u1 rfl))
+    | some b1 =>
+      cases b1 with
+      | true =>
+        simp only [R.pair?, Option.some.injEq, Prod.mk.injEq] at h
+        obtain ⟨e1, e2⟩ := h; subst e1 e2
+        exact pack _ _ (eat_exit s1 (t1 (by simp)) _ (by simp) (by simp) (by simp [t1]) (by simp [s1.nrec])
+          (by simp [s1.cr]) (by simp) (by simp))
+      | false =>
+        simp only at h
+        cases h2 : eat m1 i1 kwSystem eqCi with
+        | mk b2 r2 =>
+          obtain ⟨m2, i2⟩ := r2
+          obtain ⟨s2, t2, u2⟩ := eat_stage s1 _ _ pk5 n5 b2 m2 i2 h2
+          rw [h2] at h
+          cases b2 with
+          | none =>
+            simp only [R.pair?, Option.some.injEq, Prod.mk.injEq] at h
+            obtain ⟨e1, e2⟩ := h; subst e1 e2
+            exact pack _ _ (eat_suspend s2 (Or.inr rfl) (u2 rfl))
+          | some b2 =>
+            cases b2 with
+            | true =>
+              simp only [R.pair?, Option.some.injEq, Prod.mk.injEq] at h
+              obtain ⟨e1, e2⟩ := h; subst e1 e2
+              exact pack _ _ (eat_exit s2 (t2 (by simp)) _ (by simp) (by simp) (by simp [t2]) (by simp [s2.nrec])
+                (by simp [s2.cr]) (by simp) (by simp))
+            | false =>
+              simp only at h
+              have ht2 := t2 (by simp)
+              have hK : m2.line + brk m2.ignoreLf i2 = K := by
+                have := s2.phi; rw [ht2] at this; simpa using this
+              have hphi := getChar_phi o m2 i2
+              cases hg : getChar o m2 i2 with
+              | mk oc r =>
+                obtain ⟨m3, i3⟩ := r
+                rw [hg] at h hphi
+                simp only at hphi
+                cases oc with
+                | none =>
+                  obtain ⟨_, _, g3⟩ := getChar_none o m2 m3 i2 i3 hg
+                  simp only [R.pair?, Option.some.injEq, Prod.mk.injEq] at h
+                  obtain ⟨e1, e2⟩ := h; subst e1 e2
+                  have hf : m3.state = .afterDoctypeName ∧ m3.tempBuf = [] ∧ m3.reconsume = false ∧ m3.charRef = none := by
+                    rcases g3 with ⟨_, g4⟩ | ⟨_, _, g4⟩ <;> subst g4
+                    · exact ⟨s2.st, ht2, s2.nrec, s2.cr⟩
+                    · exact ⟨by simp [s2.st], by simp [ht2], by simp [s2.nrec], by simp [s2.cr]⟩
+                  have hst : stash m3 = [] := by rw [stash_eat hf.2.2.2 (Or.inr hf.1)]; exact hf.2.1
+                  refine pack _ _ ⟨hf.2.2.1, hf.2.2.2, by rw [hst]; intro c hc; exact absurd hc List.not_mem_nil, ?_,
+                    fun hx => absurd hf.1 hx⟩
+                  unfold Phi; rw [hst]; simp only [List.nil_append]; rw [hphi, hK]
+                | some c =>
+                  obtain ⟨f1, f2, f3, f4, _⟩ := getChar_fields o m2 m3 i2 i3 c hg
+                  obtain ⟨r1, r2⟩ := getChar_ri o m2 m3 i2 i3 c (by intro hx; rw [s2.nrec] at hx; simp at hx) hg
+                  obtain ⟨e1, e2⟩ := ofSig_pair _ _ _ _ h
+                  subst e1 e2
+                  obtain ⟨a1, a2, a3, a4, a5, a6, a7⟩ := afterChar_lines o pol m3 c (by rw [f4, s2.cr])
+                    (by intro _; rw [f2, ht2]) f3 r1 r2
+                  refine ⟨a2, a3, a4, by rw [a5]; intro c hc; exact absurd hc List.not_mem_nil, ?_, fun hraw _ => a1 hraw⟩
+                  unfold Phi; rw [a5]; simp only [List.nil_append]; rw [a6, a7, hphi, hK]
+
+
+/-! ### every step conserves `Phi` and keeps the invariant -/
+
+theorem step_lines (o : Opts) (pol : Pol) (m : Mach) (inp : Str) (hi : LInv m) (m' : Mach) (i' : Str)
+    (h : (step o pol m inp).pair? = some (m', i')) : LInv m' ∧ Phi m' i' = Phi m inp := by
+  have hmach := pair_mach _ _ _ h
+  obtain ⟨hg', he0⟩ := step_good o pol m inp hi.good hi.notEof m' hmach
+  have hs' := (step_safe o pol m inp hi.safe).2 m' hmach
+  have he' : m'.atEof = false := by rw [he0, hi.notEof]
+  cases hcr : m.charRef with
+  | some cr =>
+    rw [step_kind_charRef o pol m inp cr hcr] at h
+    exact lines_charRef o m inp cr hi hcr m' i' h hg' hs' he'
+  | none =>
+    cases hrk : readKind m.state with
+    | getChar =>
+      rw [step_getChar o pol m inp hcr hrk] at h
+      exact lines_getChar o pol m inp hi hcr hrk m' i' h hg' hs' he'
+    | popExcept =>
+      rw [step_popExcept o pol m inp hcr hrk] at h
+      refine lines_set o pol m inp hi hcr (Or.inl hrk) _ (popExceptFrom_phi o _ m inp (setOf_crlf _ (Or.inl hrk)))
+        ?_ ?_ m' i' h hg' hs' he'
+      · intro hn
+        cases hp : popExceptFrom o (setOf m.state) m inp with
+        | mk a b =>
+          obtain ⟨m1, i1⟩ := b
+          rw [hp] at hn; simp only at hn; subst hn
+          obtain ⟨g1, _, g3⟩ := popExceptFrom_none o _ m m1 inp i1 hp
+          exact ⟨g1, by rcases g3 with ⟨_, g4⟩ | ⟨_, _, g4⟩ <;> simp [g4]⟩
+      · intro sr hsr
+        cases hp : popExceptFrom o (setOf m.state) m inp with
+        | mk a b =>
+          obtain ⟨m1, i1⟩ := b
+          rw [hp] at hsr; simp only at hsr; subst hsr
+          exact ⟨popExceptFrom_fields o _ m m1 inp i1 sr hp, popExceptFrom_ri o _ m m1 inp i1 sr hi.ri hp⟩
+    | dataSimd =>
+      rw [step_dataSimd o pol m inp hcr hrk] at h
+      refine lines_set o pol m inp hi hcr (Or.inr hrk) _ (readData_phi o m inp) ?_ ?_ m' i' h hg' hs' he'
+      · intro hn
+        cases hp : readData o m inp with
+        | mk a b =>
+          obtain ⟨m1, i1⟩ := b
+          rw [hp] at hn; simp only at hn; subst hn
+          obtain ⟨g1, _, g3⟩ := readData_none o m m1 inp i1 hp
+          exact ⟨g1, by rcases g3 with ⟨_, g4⟩ | ⟨_, _, g4⟩ <;> simp [g4]⟩
+      · intro sr hsr
+        cases hp : readData o m inp with
+        | mk a b =>
+          obtain ⟨m1, i1⟩ := b
+          rw [hp] at hsr; simp only at hsr; subst hsr
+          exact ⟨readData_fields o m m1 inp i1 sr hp, readData_ri o m m1 inp i1 sr hi.ri hp⟩
+    | peekBav =>
+      have hst := readKind_bav hrk
+      rw [step_kind_bav o pol m inp hcr hrk] at h
+      have hr := hi.peekNoRecon (Or.inl hst)
+      obtain ⟨b1, b2, b3⟩ := stepBav_lines o pol m inp hr m' i' h
+      have hcr' : m'.charRef = none := by
+        rw [(stepBav_charRef o pol m inp).2 m' (pair_mach _ _ _ h), hcr]
+      have htb : m.tempBuf = [] := hi.nr (by rw [hst]; rfl) (by rw [hst]; simp) (by rw [hst]; simp)
+      have htb' : m'.tempBuf = [] := by rw [b1, htb]
+      have hs0 : stash m = [] := stash_nil_of hcr (fun _ => htb)
+      have hs1 : stash m' = [] := stash_nil_of hcr' (fun _ => htb')
+      exact ⟨⟨hg', hs', he', fun _ _ _ => htb', fun _ => b2, by intro hx; rw [b2] at hx; simp at hx,
+        by rw [hs1]; intro c hc; exact absurd hc List.not_mem_nil,
+        by intro cr hc; rw [hcr'] at hc; simp at hc⟩, phi_eq hs0 hs1 b3⟩
+    | eatMdo =>
+      have hst := readKind_mdo hrk
+      rw [step_kind_mdo o pol m inp hcr hrk] at h
+      have h0 : EatSt .markupDeclarationOpen (Phi m inp) m inp :=
+        ⟨hst, hcr, hi.peekNoRecon (Or.inr (Or.inl hst)), hi.good.eatOk (Or.inl hst), hi.notEof,
+          by unfold Phi; rw [stash_eat hcr (Or.inl hst)]⟩
+      obtain ⟨c1, c2, c3, c4, c5⟩ := stepMdo_lines o pol m inp _ h0 m' i' h
+      exact ⟨⟨hg', hs', he', fun _ hx _ => c5 hx, fun _ => c1, by intro hx; rw [c1] at hx; simp at hx, c3,
+        by intro cr hc; rw [c2] at hc; simp at hc⟩, c4⟩
+    | eatAdn =>
+      have hst := readKind_adn hrk
+      rw [step_kind_adn o pol m inp hcr hrk] at h
+      have h0 : EatSt .afterDoctypeName (Phi m inp) m inp :=
+        ⟨hst, hcr, hi.peekNoRecon (Or.inr (Or.inr hst)), hi.good.eatOk (Or.inr hst), hi.notEof,
+          by unfold Phi; rw [stash_eat hcr (Or.inr hst)]⟩
+      obtain ⟨c1, c2, c3, c4, c5, c6⟩ := stepAdn_lines o pol m inp _ h0 m' i' h
+      exact ⟨⟨hg', hs', he', fun hraw _ hx => c6 hraw hx, c1, c2, c4,
+        by intro cr hc; rw [c3] at hc; simp at hc⟩, c5⟩
 
 end H5V.Model.HtmlTok
